@@ -153,9 +153,11 @@ def run_g_levels(chk, quick, replay):
         l16, l8, l5, reps, maxlines = 5, 6, 7, REPS_QUICK + REPS_MORE, 4
     mod = g_module(reps)
     r1, n1 = flow.run_g(chk, mod, g_cfg(1, l16, l8, l5, maxlines), replay,
-                        nontrivial=nontrivial_g, sample_every=70001, timeout=3000)
+                        nontrivial=nontrivial_g, sample_every=70001, timeout=3000,
+                        extra_args=() if quick else ("-maxSetSize", "4000000"))
     r2, n2 = flow.run_g(chk, mod, g_cfg(2, l16, l8, l5, maxlines), replay,
-                        nontrivial=nontrivial_g, sample_every=30011, timeout=3000)
+                        nontrivial=nontrivial_g, sample_every=30011, timeout=3000,
+                        extra_args=() if quick else ("-maxSetSize", "4000000"))
     # directive words: the three directives in other letter cases and with neighbours, and words that a parser
     # might have lying around as method or attribute names - "exactly so spelled ... the only directives"
     words = ["define", "import", "include", "Define", "IMPORT", "Include", "defines", "imports", "includes", "def",
